@@ -343,6 +343,28 @@ def _run_object(ctx, case, st):
         if c1 != c2_:
           msgs.append("constrained variables differ: %s vs %s" % (c1, c2_))
       ctx.check("layer/same-variables-and-outputs", not msgs, "%s: %s" % (name, "; ".join(msgs)), info=info)
+      # the config of the *built* layer (what model.save / clone_model read): building must not leak derived state into
+      # it, and a layer rebuilt from it has the same variables
+      try:
+        cb = o.get_config()
+        nb = _norm(cb)
+        diffb = [k for k in set(n1) | set(nb) if n1.get(k) != nb.get(k)] if isinstance(nb, dict) else ["<not a dict>"]
+        msgs = []
+        if diffb:
+          msgs.append("get_config() changed by build/call in %s: %s -> %s" % (diffb[:3], [n1.get(k) for k in diffb[:2]], [nb.get(k) for k in diffb[:2]]))
+        o4 = cls.from_config(cb)
+        o4(inp)
+        v4 = [(v.name.split("/", 1)[-1], tuple(v.shape)) for v in o4.weights]
+        if v4 != v1:
+          msgs.append("layer rebuilt from the built layer's config has variables %s, original %s" % (v4, v1))
+        else:
+          o4.set_weights(o.get_weights())
+          a, b = flat(o(inp)), flat(o4(inp))
+          if a.shape != b.shape or not np.array_equal(a, b, equal_nan=True):
+            msgs.append("outputs differ after copying the weights into the layer rebuilt from the built config")
+        ctx.check("layer/built-config-round-trip", not msgs, "%s: %s" % (name, "; ".join(msgs)), info=info)
+      except Exception as e:
+        ctx.check("layer/built-config-round-trip", False, "%s: round trip of the built layer's config raised %s: %s" % (name, type(e).__name__, str(e)[:200]), info=info)
     # ---- through the serialised (JSON) form, as model.save / to_json do: tuples come back as lists ----------
     try:
       import json as _json
